@@ -10,7 +10,7 @@ t_hist = tmpl.pick(tmpl.history_case, LABELS)
 
 def templates(tier, seed):
     ts = []
-    quick_ops = ["validate_eager", "validate_lazy", "statistics", "to_yaml", "strategy", "transform_rename"]
+    quick_ops = ["validate_eager", "validate_lazy", "statistics", "to_yaml", "example", "transform_rename"]
     for variant in ("regex", "dtype", "plain"):
         for k in ((1, 2) if tier == "quick" else (1, 2, 3)):
             N = 1 if k > 1 else 2
